@@ -98,6 +98,28 @@ Theorem C18_cycle_diagnosed : forall E, NoDup (map sname E) -> byvalue_cycle E -
   compute_layouts E = Fail ESelfRef \/ compute_layouts E = Fail ECycle.
 Proof. exact cycle_diagnosed_lemma. Qed.
 
+(* ... exactly then: the two recursion diagnostics are answered for every definition list with a
+   by-value cycle and never for one without (any number of structs, any nesting depth, any order);
+   the witness of a diagnostic is the set of structs Kahn's loop could not emit *)
+Theorem C18_recursion_diagnosed_iff_cycle : forall E, NoDup (map sname E) ->
+  (compute_layouts E = Fail ESelfRef \/ compute_layouts E = Fail ECycle) <-> byvalue_cycle E.
+Proof. exact diagnostic_iff_cycle. Qed.
+
+(* "acyclic set of struct definitions" of the property = [wf_env] of the theorems: the rank function
+   of [wf_env] exists exactly when there is no by-value cycle *)
+Theorem C18_wellformed_iff_acyclic : forall E,
+  wf_env E <-> (NoDup (map sname E) /\ all_defined E /\ ~ byvalue_cycle E).
+Proof. exact wf_env_iff_acyclic. Qed.
+
+(* the complete outcome table on uniquely named, fully defined definitions: recursion diagnostic
+   iff cycle; TooLarge iff acyclic and something does not fit u32; laid out iff acyclic and fits.
+   No other error, no internal failure of the model. *)
+Theorem C18_outcome_table : forall E, NoDup (map sname E) -> all_defined E ->
+  (byvalue_cycle E /\ (compute_layouts E = Fail ESelfRef \/ compute_layouts E = Fail ECycle))
+  \/ (~ byvalue_cycle E /\ ~ env_fits E /\ compute_layouts E = Fail ETooLarge)
+  \/ (~ byvalue_cycle E /\ env_fits E /\ exists offs m, compute_layouts E = Ok (offs, m)).
+Proof. exact outcome_table. Qed.
+
 (* the direct case, without the unique-names hypothesis *)
 Theorem C18_self_reference_diagnosed : forall E d t,
   In d E -> In t (sfields d) -> refs_by_value t (sname d) = true ->
